@@ -205,6 +205,14 @@ def build_site(site):
                 return None
         v1 = site_variant(seq, kind, vlen, context)
         v2 = synth.make_variant(seq, upos, ukind, ulen)
+        if ukind == "INS" and ulen > 8:
+            # a long insertion of one repeated base that occurs neither in the first variant's alleles nor next to the
+            # anchor: its bases cannot stand in for bases of the first variant
+            avoid = set(v1.ref + v1.alts[0] + seq[upos] + seq[upos + 1])
+            b = next((x for x in "ACGT" if x not in avoid), None)
+            if b is None:
+                return None
+            v2 = synth.Var(upos, seq[upos], [seq[upos] + b * ulen], "INS")
         i1 = 0 if v1.pos < v2.pos else 1
         variants = [v1, v2] if i1 == 0 else [v2, v1]
         lo, hi = min(v1.pos, v2.pos), max(v1.pos + len(v1.ref), v2.pos + len(v2.ref))
@@ -286,10 +294,12 @@ def sites(tier):
                 if context != "random" and (kind not in ("INS", "DEL") or vlen > 6 or (context == "dinuc" and vlen > 2)):
                     continue
                 for ukind in ("DEL", "INS"):
-                    for ulen in (1, 2, 3, 5, 6, 8):
+                    for ulen in (1, 2, 3, 5, 6, 8) + ((25, 31) if ukind == "INS" else (25,)):
                         for off in list(range(-OVERHANG - 6 - ulen, -3 - ulen)) + list(range(3, OVERHANG + 4)):
                             if rep > 0 and not T:
                                 continue
+                            if ulen > 8 and not (T or (off in (-ulen - 8, -ulen - 5, 4, 7, 9) and context == "random")):
+                                continue  # long neighbouring alleles (longer than REF + 2 x overhang) on a slice
                             out.append(("rpair", kind, vlen, context, ukind, ulen, off, seed0 + rep))
         # a longer first indel followed closely by a second variant
         for k1, k2 in (("INS", "INS"), ("INS", "SNV"), ("INS", "DEL"), ("DEL", "INS"), ("DEL", "SNV"), ("DEL", "DEL")):
